@@ -110,6 +110,40 @@ func libGoroutinesBlocked(dump string) (total, blocked int, blockedStacks []stri
 	return
 }
 
+// guardCall runs fn (scenario set-up that calls into the library) and decides on state whether it is stuck:
+// dead=true iff fn has not returned and, in two dumps taken apart, every goroutine with a library frame is in a
+// lock wait. A plain timeout without that state is reported as ok=false, dead=false (inconclusive).
+func guardCall(fn func(), limit time.Duration) (ok, dead bool, dump string) {
+	done := make(chan struct{})
+	go func() { defer close(done); fn() }()
+	start := time.Now()
+	for {
+		select {
+		case <-done:
+			return true, false, ""
+		case <-time.After(100 * time.Millisecond):
+		}
+		if time.Since(start) < 2*time.Second {
+			continue
+		}
+		d1 := goroutineDump()
+		t1, b1, _ := libGoroutinesBlocked(d1)
+		time.Sleep(400 * time.Millisecond)
+		select {
+		case <-done:
+			return true, false, ""
+		default:
+		}
+		t2, b2, stacks := libGoroutinesBlocked(goroutineDump())
+		if t1 > 0 && t1 == b1 && t2 == b2 && t1 == t2 {
+			return false, true, strings.Join(stacks, "\n\n")
+		}
+		if time.Since(start) > limit {
+			return false, false, ""
+		}
+	}
+}
+
 // waitAll waits for the workers of a scenario. It returns ok=true when all
 // finished. Otherwise it classifies on state: deadlocked=true iff in two dumps
 // taken a grace period apart every library goroutine is in a lock wait and no
